@@ -1,5 +1,7 @@
 import Oracle.Util
 import MobiusModel.Accounts
+import MobiusModel.AccountsWire
+import MobiusModel.AccountsFault
 /-!
   Oracle handlers for C15.  `c15run` executes a whole history on the Accounts model
   (`Mobius.Accounts.step`, the definitions the theorems are about) and prints one observation
@@ -11,6 +13,10 @@ import MobiusModel.Accounts
     A <login> <name> <pw> <access>      initial account (before the first operation)
     N|S|D|G <k> (<ty> <hex>)*k          new-user / set-user / delete-user / get-user with k fields
     U <r> (<k> (<ty> <hex>)*k)*r        update-user with r sub-records
+    FN | FS | FU …                      the same requests served while the store's temporary file cannot be
+                                        written (`stepF … (.tmpBlocked, op)`, AccountsFault.lean)
+  c15wire <hex>                         the BYTES of a request through `Transaction.decode` and, for update-user,
+                                        `subRecDecode` of every field: prints the request in the token form above
     L                                   list-users
     I <login> <pw>                      login attempt (password bytes as sent)
     R                                   restart (memory := load(disk))
@@ -75,6 +81,15 @@ partial def c15Loop (env : Env Bytes) (st : State Bytes) (acc : List String) : L
   | "U" :: r :: rest =>
     let (recs, rest') := takeRecs (num r) rest
     let x := step env st (.updateUser recs); c15Loop env x.1 (outStr env x.2 :: acc) rest'
+  | "FU" :: r :: rest =>
+    let (recs, rest') := takeRecs (num r) rest
+    let x := stepF env st (.tmpBlocked, .updateUser recs); c15Loop env x.1 (outStr env x.2 :: acc) rest'
+  | "FN" :: k :: rest =>
+    let (fs, rest') := takeFields (num k) rest
+    let x := stepF env st (.tmpBlocked, .newUser fs); c15Loop env x.1 (outStr env x.2 :: acc) rest'
+  | "FS" :: k :: rest =>
+    let (fs, rest') := takeFields (num k) rest
+    let x := stepF env st (.tmpBlocked, .setUser fs); c15Loop env x.1 (outStr env x.2 :: acc) rest'
   | op :: k :: rest =>
     let (fs, rest') := takeFields (num k) rest
     let o : Option Op := match op with
@@ -88,7 +103,28 @@ partial def c15Loop (env : Env Bytes) (st : State Bytes) (acc : List String) : L
     | none => (("bad-token " ++ op) :: acc).reverse
   | t :: _ => (("bad-token " ++ t) :: acc).reverse
 
+def fieldsTok (fs : List Field) : String :=
+  s!"{fs.length}" ++ String.join (fs.map fun f => s!" {f.ty} {toHex f.data}")
+
+/-- the request a server reads out of these bytes, in the token form of `c15run` -/
+def wireTok (p : Bytes) : String :=
+  match Transaction.decode p with
+  | .err => "err"
+  | .panic => "panic"
+  | .ok t =>
+    if t.ty = 349 then
+      let recs := t.fields.map fun f => subRecDecode f.data
+      if recs.all (fun r => match r with | .ok _ => true | _ => false) then
+        s!"U {recs.length}" ++ String.join (recs.map fun r => match r with | .ok fs => " " ++ fieldsTok fs | _ => "")
+      else "U-bad-record"
+    else
+      let letter := if t.ty = 350 then "N" else if t.ty = 353 then "S" else if t.ty = 351 then "D" else if t.ty = 352 then "G" else "?"
+      letter ++ " " ++ fieldsTok t.fields
+
 def c15Handlers : List (String × Handler) := [
+  ("c15wire", fun (a : List String) => match a with
+    | [h] => wireTok (hexb h)
+    | _ => "bad-op"),
   ("c15run", fun (a : List String) => match a with
     | nm :: rest => " | ".intercalate (c15Loop (envO (num nm)) ⟨AMap.empty, AMap.empty⟩ [] rest)
     | _ => "bad-op"),
